@@ -263,6 +263,24 @@ func genClientRandom(c *Ctx) {
 				}
 				steps = append(steps, mvStep(0, p, randRem(r), randTC(r)))
 			}
+			// the same board with the same side to move at a later ply (a shuffle came back to it): the `position tps`
+			// line is the text of THIS position, move number included
+			if r.Chance(1, 3) {
+				if last := decPos(strings.Split(steps[len(steps)-1], ":")[2]); last.MoveNumber() >= 2 {
+					n := last.Size()
+					board := make([][]tak.Square, n)
+					for y := 0; y < n; y++ {
+						board[y] = make([]tak.Square, n)
+						for x := 0; x < n; x++ {
+							board[y][x] = last.At(x, y)
+						}
+					}
+					if q, err := tak.FromSquares(last.Config(), board, last.MoveNumber()+2*(1+r.Intn(6))); err == nil {
+						steps = append(steps, mvStep(0, q, randRem(r), randTC(r)))
+						c.Count("client.position.same-board-later-ply")
+					}
+				}
+			}
 			c.Count("client.script.one-game")
 		case x < 14:
 			// two games on one client; the second request goes to the new or to the dead player
